@@ -126,13 +126,17 @@ def data_rdms(prob, data=None):
 def call_fitter(fname, model, data_obj, prob, method, sigma, normalize):
     idx = np.array([prob['lab'][p] for p in prob['pos']])
     kw = dict(method=method, pattern_idx=idx, pattern_descriptor=prob['desc'])
+    if prob['selk'] == 'all' and list(prob['pos']) == list(range(prob['n_cond'])) and prob['n_cond'] % 2 == 0:
+        kw = dict(method=method)        # all conditions in their own order: the selection arguments may simply be omitted
     if method.endswith('_cov'):
         # a preallocated covariance buffer overwritten from case to case (same object, new values)
         kw['sigma_k'] = gen.reused_buffer(sigma) if sigma is not None and len(prob['pos']) % 2 else sigma
     f = dict(fit_regress=fit_regress, fit_regress_nn=fit_regress_nn, fit_optimize=fit_optimize,
              fit_optimize_positive=fit_optimize_positive, fit_select=fit_select, fit_interpolate=fit_interpolate)[fname]
     if fname in ('fit_regress', 'fit_regress_nn', 'fit_optimize', 'fit_optimize_positive'):
-        kw['normalize'] = normalize
+        # the switch as a caller may hold it: a Python bool, a numpy bool or 0/1 -- its truth value counts
+        form = len(prob['pos']) % 3
+        kw['normalize'] = normalize if form == 0 else (np.bool_(normalize) if form == 1 else int(normalize))
     if fname == 'fit_regress_nn':
         with cycle_guard():
             return f(model, data_obj, **kw)
@@ -202,6 +206,9 @@ def run_weighted(ctx, fname, force=None):
         # conversions give 1e-6): the optimal weights are then tiny or huge, the criterion is unchanged
         bunit = float(10.0 ** int(gen.pick(rng, [-6, -3, 3, 5, 7])))
         prob['basis'] = prob['basis'] * bunit
+    if fname in ('fit_regress', 'fit_regress_nn') and not tiny and force is None and bunit == 1.0 and rng.integers(4) == 0:
+        # basis RDMs holding whole numbers, stored in an integer array (ordinal model RDMs, counts)
+        prob['basis'] = np.round(np.asarray(prob['basis']) * 10).astype(np.int64)
     method = gen.pick(rng, ['cosine', 'corr', 'cosine_cov', 'corr_cov'])
     n_sub = len(prob['pos'])
     sk = gen.pick(rng, ['none', 'none', 'matrix']) if method.endswith('_cov') else 'none'  # the fitters document a matrix
